@@ -35,7 +35,7 @@ type c19 struct{}
 func (c19) ID() string    { return "C19" }
 func (c19) Level() string { return "exploration" }
 func (c19) Rule() string {
-	return "cases = (file, flags): .cnf files for every CNF of T2 (<=2 clauses) and S3 (<=2 clauses) and the conflict-rich seeds; .opb files for single PB constraints with every cost function over <=2 variables and constraint pairs; .wcnf files of the C04 family with <=2 clauses; .bf files for every syntax tree with <=3 leaves (incl. brace groups of <=3 names); flags none, -count, -certified, -mus, -cp, -verbose and -verbose with each of the others (only the flags that apply to the file kind); plus an unreadable path, an unknown suffix and a syntactically broken file of each kind. Every case starts the executable built from /repo's working tree as a child process. Oracle: exit status 0 and truthful output: answer line SATISFIABLE/OPTIMUM FOUND with a 'v' line that is a model (truth table) or UNSATISFIABLE only for unsatisfiable files; 'o' lines strictly decreasing, last == true optimum attained by the 'v' line; -count prints the exact count; -certified prints a valid RUP refutation (independent checker) when UNSAT; -mus prints a CNF that is a minimal unsatisfiable sub-multiset of the file; .bf answers match the reference truth table. Bad inputs: non-zero exit and no answer line. Non-trivial = the output had to contain a model, an optimum, a count, a certificate or a MUS that was checked."
+	return "cases = (file, flags): .cnf files for every CNF of T2 (<=2 clauses) and S3 (<=2 clauses) and the conflict-rich seeds, plus satisfiable files with 64..1203 variables and a planted model (validated by evaluating the clauses); .opb files for single PB constraints with every cost function over <=2 variables and constraint pairs; .wcnf files of the C04 family with <=2 clauses; .bf files for every syntax tree with <=3 leaves (incl. brace groups of <=3 names); flags none, -count, -certified, -mus, -cp, -verbose and -verbose with each of the others (only the flags that apply to the file kind); plus an unreadable path, an unknown suffix and a syntactically broken file of each kind. Every case starts the executable built from /repo's working tree as a child process. Oracle: exit status 0 and truthful output: answer line SATISFIABLE/OPTIMUM FOUND with a 'v' line that is a model (truth table) or UNSATISFIABLE only for unsatisfiable files; 'o' lines strictly decreasing, last == true optimum attained by the 'v' line; -count prints the exact count; -certified prints a valid RUP refutation (independent checker) when UNSAT; -mus prints a CNF that is a minimal unsatisfiable sub-multiset of the file; .bf answers match the reference truth table. Bad inputs: non-zero exit and no answer line. Non-trivial = the output had to contain a model, an optimum, a count, a certificate or a MUS that was checked."
 }
 func (c19) Assumptions() []string {
 	return []string{"the executable is built by run.sh from /repo's working tree (path in VERIF_GOPHERSAT_BIN)", "both spellings of the positive answer line are accepted ('s SATISFIABLE', 's OPTIMUM FOUND', and plain SATISFIABLE for .bf): truthfulness is judged, not the exact wording", "flag pairs other than -verbose+X are not generated (the statement lists single flags)"}
@@ -103,6 +103,34 @@ func (c19) Enumerate(tier string, seed int64, yield func(string, core.Case) bool
 		}
 		if !cnf("cnf/M", s.F, n, fl) {
 			return
+		}
+	}
+	// large satisfiable files with a planted model (validated by evaluating the clauses, no truth table)
+	for _, n := range []int{64, 499, 500, 501, 1203} {
+		g := &lcg{s: uint64(seed)*104729 + uint64(n)}
+		planted := make([]bool, n+1)
+		for v := 1; v <= n; v++ {
+			planted[v] = g.next()&1 == 1
+		}
+		var f [][]int
+		lit := func(v int, sat bool) int {
+			if planted[v] == sat {
+				return v
+			}
+			return -v
+		}
+		for v := 1; v < n; v++ { // a chain that forces most of the planted model from its first variable
+			f = append(f, []int{-lit(v, true), lit(v+1, true)})
+		}
+		f = append(f, []int{lit(1, true)})
+		for k := 0; k < 2*n; k++ {
+			a, b, c := 1+int(g.next()%uint64(n)), 1+int(g.next()%uint64(n)), 1+int(g.next()%uint64(n))
+			f = append(f, []int{lit(a, true), lit(b, g.next()&1 == 1), lit(c, g.next()&1 == 1)})
+		}
+		for _, fl := range [][]string{{}, {"-cp"}, {"-verbose"}, {"-certified"}} {
+			if !yield("cnf/large-planted", CLICase{Ext: "cnf", Text: dimacs(f, n), Flags: fl, F: f, N: n, Bad: ""}) {
+				return
+			}
 		}
 	}
 	// OPB
@@ -292,7 +320,7 @@ func (c19) Exec(cc core.Case, r *core.Rec) []core.Failure {
 		case t == "SATISFIABLE" || t == "UNSATISFIABLE":
 			answer = t
 		case strings.HasPrefix(t, "v "):
-			vline = strings.Fields(t[2:])
+			vline = append(vline, strings.Fields(t[2:])...) // a model may be spread over several v lines
 		case strings.HasPrefix(t, "o "):
 			v, err := strconv.Atoi(strings.TrimSpace(t[2:]))
 			if err == nil {
@@ -384,6 +412,33 @@ func (c19) Exec(cc core.Case, r *core.Rec) []core.Failure {
 	}
 	switch c.Ext {
 	case "cnf":
+		if c.N > 20 {
+			// large planted instance: satisfiable by construction; the printed model is evaluated directly
+			if !positive {
+				add("untruthful-answer", fmt.Sprintf("answer %q on a satisfiable file (planted model)", answer))
+				return fs
+			}
+			r.NonTrivial()
+			m, ok := modelFromV(c.N, false)
+			if !ok {
+				add("malformed-v-line", fmt.Sprintf("%d tokens for %d variables", len(vline), c.N))
+				return fs
+			}
+			for _, cl := range c.F {
+				sat := false
+				for _, l := range cl {
+					if (l > 0 && m[l-1]) || (l < 0 && !m[-l-1]) {
+						sat = true
+						break
+					}
+				}
+				if !sat {
+					add("v-line-not-a-model", fmt.Sprintf("clause %v is falsified by the printed model", cl))
+					return fs
+				}
+			}
+			return fs
+		}
 		models := tt.Models(c.N, clausesToTT(c.F))
 		sat := !models.IsEmpty()
 		switch {
